@@ -196,6 +196,7 @@ type roFacts struct {
 	referencing []string // every Rollout in the namespace whose workloadRef names this workload (group, kind, name)
 	active      []string
 	activeTR    int
+	trOf        map[string]bool
 	unclear     string // non-empty: some referencing Rollout's activeness is not determined by the statement
 	emptyStrat  int
 	shape       string
@@ -239,6 +240,10 @@ func rolloutFacts(in *caseIn) roFacts {
 			f.active = append(f.active, r.Name)
 			if r.TR {
 				f.activeTR++
+				if f.trOf == nil {
+					f.trOf = map[string]bool{}
+				}
+				f.trOf[r.Name] = true
 			}
 			shape = append(shape, "ref:active:"+tag+":"+phaseTag(r.Phase))
 		}
@@ -255,14 +260,49 @@ func phaseTag(p string) string {
 	return p
 }
 
-func activeRSCount(in *caseIn) int {
-	n := 0
+// activeRSCount: owned, non-deleting ReplicaSets that are asked to run pods (spec) / that are asked to or still do (pods).
+func activeRSCount(in *caseIn) (bySpec, byPods int) {
 	for _, rs := range in.RSs {
-		if rs.Owned && !rs.Deleting && rs.Replicas > 0 {
-			n++
+		if !rs.Owned || rs.Deleting {
+			continue
+		}
+		if rs.Replicas > 0 {
+			bySpec++
+		}
+		if rs.Replicas > 0 || rs.StatusReplicas > 0 {
+			byPods++
 		}
 	}
-	return n
+	return
+}
+
+// revisionFacts answers "does the workload run a single revision?".
+// hard: not determined at all; trUnclear: the observable facts disagree (matters only under traffic routing).
+func revisionFacts(in *caseIn) (multi bool, hard, trUnclear string) {
+	switch in.K.Kind {
+	case "Deployment":
+		bySpec, byPods := activeRSCount(in)
+		if bySpec == 0 {
+			return false, "deployment-without-active-replicaset", ""
+		}
+		multi = bySpec > 1
+		if (bySpec == 1) != (byPods == 1) {
+			trUnclear = "replicaset-scaled-to-zero-still-has-pods"
+		}
+	case "DaemonSet":
+		d, _ := numAt(in.New, "status", "desiredNumberScheduled")
+		u, _ := numAt(in.New, "status", "updatedNumberScheduled")
+		multi = d != u
+	default:
+		r, _ := numAt(in.New, "status", "replicas")
+		u, _ := numAt(in.New, "status", "updatedReplicas")
+		multi = r != u
+		cur, upd := strAt(in.New, "status", "currentRevision"), strAt(in.New, "status", "updateRevision")
+		if cur != "" && upd != "" && (cur != upd) != multi {
+			trUnclear = "status-pod-counts-and-revisions-disagree"
+		}
+	}
+	return
 }
 
 func contains(xs []string, s string) bool {
@@ -356,18 +396,44 @@ func decide(in *caseIn) *expectation {
 		default:
 			e.Style = "canary"
 		}
-		if e.Style == "bluegreen" {
-			// the un-pause clause names canary- and partition-style only; a release change on top of a running
-			// blue-green release (two revisions exist) is not determined by the statement
-			if relA || relAUndet {
-				return undet("bluegreen-in-progress-release-change")
-			}
-			return unchanged("bluegreen-in-progress-no-release-change")
-		}
 		mark := parseMark(newAnno[keyInProgress])
-		if f.unclear != "" || !contains(f.active, mark) {
+		markActive := f.unclear == "" && contains(f.active, mark)
+		// a NEW release change on top of the running release: is the statement's first sentence determined?
+		holdUndet := ""
+		if relA && markActive {
+			multi, hard, trU := revisionFacts(in)
+			switch {
+			case specReplicas(in.New) == 0:
+				holdUndet = "zero-replicas"
+			case hard != "":
+				holdUndet = hard
+			case f.trOf[mark] && (multi || trU != ""):
+				holdUndet = "traffic-routing-multi-revision"
+			}
+		}
+		if e.Style == "bluegreen" {
+			// the un-pause clause names canary- and partition-style only
+			switch {
+			case relAUndet:
+				return undet("bluegreen-in-progress-release-change")
+			case !relA:
+				return unchanged("bluegreen-in-progress-no-release-change")
+			case !markActive:
+				return undet("in-progress-mark-without-active-rollout")
+			case holdUndet != "":
+				return undet("bluegreen-in-progress-release-change:" + holdUndet)
+			}
+			e.Class, e.Reason, e.Names = clsHeld, "in-progress-bluegreen-release-change", []string{mark}
+			return e
+		}
+		if !markActive {
 			// "in the middle of a release" vs "without a matching active Rollout … admitted unchanged": conflict
 			return undet("in-progress-mark-without-active-rollout")
+		}
+		if e.Style == "partition" && relA && holdUndet == "" {
+			// the hold of a partition-style release is `paused` inside the deployment-strategy annotation (spec.paused is always true there)
+			e.Class, e.Reason, e.Names = clsHeld, "in-progress-partition-release-change", []string{mark}
+			return e
 		}
 		paused, _ := sub(in.New, "spec")["paused"].(bool)
 		if !paused {
@@ -412,23 +478,12 @@ func decide(in *caseIn) *expectation {
 		}
 	}
 	// row 7: traffic routing needs a single running revision
-	multi := false
-	switch in.K.Kind {
-	case "Deployment":
-		switch n := activeRSCount(in); {
-		case n == 0:
-			return undet("deployment-without-active-replicaset")
-		case n > 1:
-			multi = true
-		}
-	case "DaemonSet":
-		d, _ := numAt(in.New, "status", "desiredNumberScheduled")
-		u, _ := numAt(in.New, "status", "updatedNumberScheduled")
-		multi = d != u
-	default:
-		r, _ := numAt(in.New, "status", "replicas")
-		u, _ := numAt(in.New, "status", "updatedReplicas")
-		multi = r != u
+	multi, hard, trU := revisionFacts(in)
+	if hard != "" {
+		return undet(hard)
+	}
+	if f.activeTR > 0 && trU != "" {
+		return undet(trU)
 	}
 	if multi && f.activeTR > 0 {
 		if f.activeTR != len(f.active) {
@@ -531,6 +586,8 @@ func judge(in *caseIn, e *expectation, sub0, adm obj) (observed string, diffs []
 		observed = clsUnchanged
 	case markAfter != markBefore && held:
 		observed = clsHeld
+	case e.InProgDep && e.Class == clsHeld && held:
+		observed = "held-in-progress"
 	case k.Kind == "Deployment" && markAfter == markBefore && contains(diffs, "/spec/paused") && held:
 		observed = clsRepaused
 	case !touchedHold:
@@ -546,7 +603,7 @@ func judge(in *caseIn, e *expectation, sub0, adm obj) (observed string, diffs []
 		case clsRepaused:
 			return p == "/spec/paused" || isStrategyPath(p)
 		case clsHeld:
-			return contains(hp, p) || p == pMark || (k.Kind == "Deployment" && p == pStable)
+			return contains(hp, p) || p == pMark || (k.Kind == "Deployment" && p == pStable) || (e.InProgDep && isStrategyPath(p))
 		}
 		return contains(hp, p) || p == pMark || (k.Kind == "Deployment" && (p == pStable || isStrategyPath(p)))
 	}
@@ -572,9 +629,37 @@ func judge(in *caseIn, e *expectation, sub0, adm obj) (observed string, diffs []
 	case clsHeld:
 		// judged on the admitted object (an object that was already held and marked for R needs no patch)
 		name := parseMark(markAfter)
+		if e.InProgDep {
+			// a Deployment in the middle of a release: the mark stays; the hold is spec.paused, for partition style also
+			// `paused` inside the deployment-strategy annotation (what the partition-style deployment controller obeys)
+			if !held {
+				if e.Style == "partition" {
+					vs = append(vs, verdict{"c08:not-repaused:partition", "Deployment in a partition-style release was admitted with spec.paused=false"})
+				} else {
+					vs = append(vs, verdict{"c08:not-held:" + tag + ":in-progress-" + e.Style + ":paused", "Deployment: new release change during a " + e.Style + " release admitted with spec.paused=false"})
+				}
+			}
+			if e.Style == "partition" {
+				var st struct {
+					Paused bool `json:"paused"`
+				}
+				_ = json.Unmarshal([]byte(strMap(adm, "metadata", "annotations")[keyDepStrategy]), &st)
+				if !st.Paused {
+					vs = append(vs, verdict{"c08:not-held:" + tag + ":in-progress-partition:strategy-annotation-paused",
+						"Deployment: new release change during a partition-style release, but the admitted deployment-strategy annotation is not paused"})
+				}
+			}
+			if !contains(e.Names, name) {
+				vs = append(vs, verdict{"c08:wrong-mark:" + tag, fmt.Sprintf("%s: in-progress mark names %q, expected one of %v", tag, name, e.Names)})
+			}
+			break
+		}
 		switch {
+		case len(diffs) == 0 && (!held || !contains(e.Names, name)):
+			// the handler did nothing at all: one fingerprint, whatever the submitted object already carried
+			vs = append(vs, verdict{"c08:not-held:" + tag + ":admitted-as-submitted", fmt.Sprintf("%s: release change under an active Rollout admitted as submitted: held back (%s)=%v, mark names %q, expected one of %v", tag, knob, held, name, e.Names)})
 		case !held && name == "":
-			vs = append(vs, verdict{"c08:not-held:" + tag + ":admitted-as-submitted", fmt.Sprintf("%s: release change under an active Rollout: admitted object is neither held back (%s) nor marked", tag, knob)})
+			vs = append(vs, verdict{"c08:not-held:" + tag + ":" + knob + "+no-mark", fmt.Sprintf("%s: release change under an active Rollout: admitted object is neither held back (%s) nor marked", tag, knob)})
 		case !held:
 			vs = append(vs, verdict{"c08:not-held:" + tag + ":" + knob, fmt.Sprintf("%s: admitted object is not held back (%s)", tag, knob)})
 		case name == "":
